@@ -19,7 +19,8 @@ import (
 func init() {
 	domains["sched"] = domain{runSched,
 		"random task graphs (deps, nested task: calls, defer:, failing commands with exit codes 1..255, ignore_error at command and task level, " +
-			"run: once/when_changed shared tasks, guards: platforms/requires/enum/preconditions/status/prompt/internal) rendered to a Taskfile and run " +
+			"run: once/when_changed shared tasks, guards: platforms/requires/enum/preconditions/status/prompt/internal; a stream of failing shared tasks reached " +
+			"both from the command line and through deps / task: entries, so that top-level callers wait for indirectly started executions and vice versa) rendered to a Taskfile and run " +
 			"in-process through Executor.Setup/Run with --concurrency 0..3, --parallel, --force, --force-all, --yes; the schedule is perturbed by seeded random " +
 			"delays at every instrumentation point; the event log is replayed by the Lean LTS. non-trivial = the run had at least two activations " +
 			"alive at once or took a dedup / guard / failure / defer branch; distinct by (program, flags, event order)"}
@@ -614,6 +615,151 @@ func (c *Ctx) genFlaky() schedCase {
 	return d
 }
 
+// genSharedFail: a deduplicated task S whose execution FAILS (own command, or a dependency's exit
+// status) is reached both by a call given on the command line and through another task (deps: or a
+// task: entry, possibly two levels down).  Which of the callers executes S and which waits is decided
+// by the order of the calls (sequential: a tolerant first caller) or by the schedule (--parallel), so
+// both dedup shapes of C03's status rule occur: a top-level waiter of an execution started
+// indirectly, and an indirect waiter of an execution started at top level.  Every caller must report
+// the failure according to how IT was called.
+func (c *Ctx) genSharedFail() schedCase {
+	r := c.Rng
+	mk := func() sTask {
+		return sTask{Run: "always", PlatformOk: true, RequiresOk: true, EnumOk: true, PrecondOk: true}
+	}
+	d := schedCase{Cap: []int{0, 0, 1, 2, 3}[r.Intn(5)], Jitter: []int64{0, 50, 300, 1000}[r.Intn(4)], Seed: r.Int63()}
+	code := []int{1, 2, 7, 126, 255, 1 + r.Intn(255)}[r.Intn(6)]
+	const S = 0
+	s := mk()
+	s.Run = []string{"once", "once", "when_changed"}[r.Intn(3)]
+	if r.Intn(4) == 0 {
+		s.Cmds = append(s.Cmds, sCmd{Call: -1, Var: -1, Deferred: true})
+	}
+	if r.Intn(2) == 0 {
+		s.Cmds = append(s.Cmds, sCmd{Call: -1, Var: -1})
+	}
+	tasks := []sTask{s}
+	add := func(t sTask) int { tasks = append(tasks, t); return len(tasks) - 1 }
+	switch r.Intn(4) {
+	case 0: // S fails through a dependency's exit status
+		f := mk()
+		f.Cmds = []sCmd{{Call: -1, Var: -1, Code: code}}
+		fi := add(f)
+		tasks[S].Deps = []sDep{{fi, -1}}
+	case 1: // S fails through a task it calls
+		f := mk()
+		f.Cmds = []sCmd{{Call: -1, Var: -1, Code: code}}
+		fi := add(f)
+		tasks[S].Cmds = append(tasks[S].Cmds, sCmd{Call: fi, Var: -1})
+	default: // own command
+		tasks[S].Cmds = append(tasks[S].Cmds, sCmd{Call: -1, Var: -1, Code: code})
+	}
+	if r.Intn(3) == 0 {
+		tasks[S].Cmds = append(tasks[S].Cmds, sCmd{Call: -1, Var: -1}) // never reached
+	}
+	// U reaches S through deps: or a task: entry, directly or through a middle task
+	via := func(target int, tolerant bool) int {
+		u := mk()
+		if tolerant || r.Intn(2) == 0 {
+			if r.Intn(2) == 0 {
+				u.Cmds = append(u.Cmds, sCmd{Call: -1, Var: -1})
+			}
+			u.Cmds = append(u.Cmds, sCmd{Call: target, Var: -1})
+			u.IgnoreError = tolerant
+			if r.Intn(2) == 0 {
+				u.Cmds = append(u.Cmds, sCmd{Call: -1, Var: -1})
+			}
+		} else {
+			u.Deps = []sDep{{target, -1}}
+			if r.Intn(2) == 0 {
+				u.Cmds = append(u.Cmds, sCmd{Call: -1, Var: -1})
+			}
+		}
+		return add(u)
+	}
+	if r.Intn(3) == 0 {
+		// sequential: the tolerant caller runs S first (through task: entries only — a dependency's
+		// failure cannot be tolerated), then S is named on the command line: a top-level waiter
+		u := via(S, true)
+		if r.Intn(3) == 0 {
+			u = via(u, true)
+		}
+		d.Calls = []int{u, S}
+	} else {
+		d.Parallel = true
+		u := via(S, false)
+		if r.Intn(3) == 0 {
+			u = via(u, false)
+		}
+		d.Calls = [][]int{{u, S}, {S, u}, {S, u, S}, {u, S, u}}[r.Intn(4)]
+		if r.Intn(4) == 0 {
+			// a second indirect route
+			d.Calls = append(d.Calls, via(S, false))
+		}
+	}
+	d.Tasks = tasks
+	return d
+}
+
+// dedupShapes reports, for the status rule of C03, which dedup shapes with a FAILED shared execution
+// the log contains: a top-level waiter of an execution registered by an indirect activation, and an
+// indirect waiter of an execution registered by a top-level activation.
+func dedupShapes(evs []verifhook.Event) (topOnIndirect, indirectOnTop bool) {
+	top := map[int64]bool{}
+	reg := map[string]int64{}
+	failed := map[int64]bool{}
+	for _, e := range evs {
+		switch e.Kind {
+		case "enter":
+			top[e.Act] = e.Args[0] == "top"
+		case "register":
+			reg[e.Args[0]] = e.Act
+		case "cmdEnd":
+			a := e.Args
+			if len(a) > 0 && a[0] == "deferred" {
+				continue
+			}
+			if len(a) > 1 && a[1] != "ok" {
+				failed[e.Act] = true
+			}
+		case "depsDone":
+			if e.Args[0] != "ok" {
+				failed[e.Act] = true
+			}
+		}
+	}
+	// a failing callee fails its caller only after callReacq; the cmdEnd / depsDone of the registered
+	// activation itself is what counts here, plus failures handed up by its own callees
+	for _, e := range evs {
+		if e.Kind != "waiter" {
+			continue
+		}
+		x, ok := reg[e.Args[0]]
+		if !ok {
+			continue
+		}
+		xf := failed[x]
+		if !xf {
+			// failed through a task: entry? look for a failed kid called by x
+			for _, k := range evs {
+				if k.Kind == "enter" && k.Args[0] == "call" && k.Args[1] == strconv.FormatInt(x, 10) && failed[k.Act] {
+					xf = true
+				}
+			}
+		}
+		if !xf {
+			continue
+		}
+		if top[e.Act] && !top[x] {
+			topOnIndirect = true
+		}
+		if !top[e.Act] && top[x] {
+			indirectOnTop = true
+		}
+	}
+	return
+}
+
 func hasCycleThroughDedup(d schedCase) bool {
 	// is there a cycle in the call graph containing a once/when_changed task?
 	n := len(d.Tasks)
@@ -686,6 +832,9 @@ func runSched(c *Ctx) {
 		} else if i%20 == 3 {
 			d = c.genFlaky()
 			c.Hit("flaky-defer")
+		} else if i%10 == 5 {
+			d = c.genSharedFail()
+			c.Hit("stream:shared-fail")
 		} else {
 			d = c.genSched(c.Pick(7, 10), false)
 		}
@@ -707,6 +856,14 @@ func runSched(c *Ctx) {
 				c.Hit("ev:" + k)
 			}
 			c.Hit("result:" + strings.SplitN(o.result, ":", 2)[0])
+			if a, b := dedupShapes(o.events); a || b {
+				if a {
+					c.Hit("c03s:top-waiter-of-indirect-exec-failed")
+				}
+				if b {
+					c.Hit("c03s:indirect-waiter-of-top-exec-failed")
+				}
+			}
 			if cyclic {
 				c.Hit("cyclic")
 			}
